@@ -66,6 +66,18 @@ class IdT(ForestTransformer):
     pass
 
 
+class SingleV(CountV):
+    """Returns a single ForestNode (not an iterable) where a packed node has one child -- the documented
+    'returning a node(s) will schedule them' form."""
+
+    def visit_packed_node_in(self, node):
+        self.steps += 1
+        if self.steps > 200_000:
+            raise RuntimeError('step budget exceeded')
+        ch = node.children
+        return ch[0] if len(ch) == 1 else ch
+
+
 def forest_has_cycle(root):
     """Independent walk: iterative DFS with colours over SymbolNode -> PackedNode -> left/right."""
     WHITE, GREY, BLACK = 0, 1, 2
@@ -138,6 +150,7 @@ def check(g, gi, boxname, b, inputs, res, only=None):
             # 1. every visitor / transformer class terminates
             walks = [('ForestVisitor(single_visit=False)', lambda: CountV(False)),
                      ('ForestVisitor(single_visit=True)', lambda: CountV(True)),
+                     ('ForestVisitor(single node returned)', lambda: SingleV(False)),
                      ('ForestTransformer', lambda: IdT()),
                      ('ForestSumVisitor', lambda: ForestSumVisitor()),
                      ('ForestToParseTree', lambda: ForestToParseTree(callbacks=cbs)),
@@ -159,7 +172,7 @@ def check(g, gi, boxname, b, inputs, res, only=None):
             if has_cycle:
                 res['counters']['forests with a cycle'] += 1
                 res['nontrivial'] += 1
-                for name in ('ForestVisitor(single_visit=False)', 'ForestVisitor(single_visit=True)'):
+                for name in ('ForestVisitor(single_visit=False)', 'ForestVisitor(single_visit=True)', 'ForestVisitor(single node returned)'):
                     wr, v = out[name]
                     if wr[0] == 'ok' and v.cycles == 0:
                         bad('cycle-not-reported', 'on_cycle', 'on_cycle invoked at least once (forest has a cycle)', 'never invoked')
